@@ -166,18 +166,25 @@ TSpec == TInit /\ [][TNext]_tvars
 AtEnd == l = Len(T.ev) + 1
 Have(ops) == \A o \in ops : cm[o] # None
 
-RequiredExact == {<<"div", "code", "build">>, <<"grad", "code", "build">>, <<"lap", "code", "build">>,
-                  <<"neumann", "code", "build">>, <<"covgrad", "code", "build">>, <<"covlap", "code", "build">>,
+\* profile "gauge" (C04): the covariant operators, built and refreshed, the supercurrent and their gauge transforms;
+\* profile "full" (C03): in addition every scalar operator, every assembly route, pinned / unpinned, restored meshes
+RequiredGauge == {<<"covgrad", "code", "build">>, <<"covlap", "code", "build">>,
                   <<"covgrad", "code", "refresh">>, <<"covlap", "code", "refresh">>,
-                  <<"div", "ref", "formula">>, <<"grad", "ref", "formula">>, <<"lap", "ref", "formula">>,
-                  <<"neumann", "ref", "formula">>, <<"covgrad", "ref", "formula">>, <<"covlap", "ref", "formula">>,
+                  <<"covgrad", "ref", "formula">>, <<"covlap", "ref", "formula">>,
                   <<"js", "code", "-">>, <<"js", "ref", "-">>, <<"gauge", "-", "-">>,
                   <<"gop", "covgrad", "refresh">>, <<"gop", "covlap", "refresh">>, <<"gjs", "-", "-">>}
+RequiredExact == IF T.profile = "gauge" THEN RequiredGauge ELSE
+                  RequiredGauge \cup
+                  {<<"div", "code", "build">>, <<"grad", "code", "build">>, <<"lap", "code", "build">>,
+                  <<"neumann", "code", "build">>,
+                  <<"div", "ref", "formula">>, <<"grad", "ref", "formula">>, <<"lap", "ref", "formula">>,
+                  <<"neumann", "ref", "formula">>}
                     \cup {<<o, "code", p>> : o \in ScalarOps, p \in AsmPaths}
                     \cup {<<o, "code", p>> : o \in CovOps, p \in PinPaths}
                     \cup {<<o, "code", p>> : o \in ScalarOps \cup CovOps, p \in RestoredPaths}
 RequiredFloat == {<<"facts", "scalar", "-">>, <<"facts", "cov", "-">>, <<"facts", "gauge", "-">>}
-Complete == IF Exact THEN RequiredExact \subseteq seen /\ (T.geo => {<<"geom", "code", "-">>, <<"geom", "ref", "-">>} \subseteq seen)
+Complete == IF Exact THEN /\ T.profile \in {"full", "gauge"} /\ RequiredExact \subseteq seen
+                          /\ ((T.geo /\ T.profile = "full") => {<<"geom", "code", "-">>, <<"geom", "ref", "-">>} \subseteq seen)
             ELSE RequiredFloat \subseteq seen
 
 \* acceptance: the whole trace was consumed, nothing was missing, no clause failed
